@@ -1,6 +1,8 @@
 import TantivyModel.Proofs.Bm25
 import TantivyModel.Proofs.Bm25Q
 import TantivyModel.Proofs.Bm25Tree
+import TantivyModel.Proofs.Bm25Round
+import TantivyModel.Proofs.Bm25RoundDisMax
 /-!
 # C12 — Relevance scores are BM25 over the searcher's statistics; explain agrees
 
@@ -315,5 +317,116 @@ theorem C12_negative_boost_not_max_compatible : ¬ MaxCompat (-1 : Int) := by
   have := h 1 2
   revert this
   decide
+
+/-! ## rounding: explicit error bounds over an abstract rounding model -/
+
+/-- THE CLAUSE SUM UNDER ROUNDING. Read the arithmetic through `val : F → ℚ` and let every addition
+be exact up to a relative error `u` (`RoundLaws`; IEEE `f32` without overflow / underflow:
+`u = 2⁻²⁴`). The score of a boolean sum of `n` clauses with non-negative scores lies within
+`(1 − u)ⁿ … (1 + u)ⁿ` of the exact sum of the clause scores — the "determined up to floating-point
+rounding of that sum" of the property, as an explicit bound. -/
+theorem C12_sum_rounding_bound {F : Type} [Arith F] (val : F → ℚ) (u : ℚ) (h : RoundLaws val u) (s : Stats)
+    (qs : List (QTree F)) (boost : F) (hpos : ∀ q, q ∈ qs → 0 ≤ val (score s q boost)) :
+    (1 - u) ^ qs.length * ((qs.map fun q => val (score s q boost)).sum) ≤ val (score s (.sum qs) boost) ∧
+      val (score s (.sum qs) boost) ≤ (1 + u) ^ qs.length * ((qs.map fun q => val (score s q boost)).sum) := by
+  rw [score_sum, sumScores_eq_foldl]
+  have := foldl_add_bounds h (qs.map (score s · boost)) zero (by rw [h.zero])
+    (by
+      intro x hx
+      obtain ⟨q, hq, rfl⟩ := List.mem_map.mp hx
+      exact hpos q hq)
+  simpa [h.zero, List.map_map, Function.comp_def] using this
+
+/-- … and two evaluation orders of the same clauses (e.g. `block_wand` versus the union scorer, or
+the clause order of the query) differ by at most `((1 + u)ⁿ − (1 − u)ⁿ) · Σ` — about `2·n·u·Σ`:
+the tolerance the harness allows for multi-clause sums (4 ulp per clause) is of this form. -/
+theorem C12_sum_order_rounding_bound {F : Type} [Arith F] (val : F → ℚ) (u : ℚ) (h : RoundLaws val u) (s : Stats)
+    (qs qs' : List (QTree F)) (hp : qs ~ qs') (boost : F) (hpos : ∀ q, q ∈ qs → 0 ≤ val (score s q boost)) :
+    |val (score s (.sum qs) boost) - val (score s (.sum qs') boost)|
+      ≤ ((1 + u) ^ qs.length - (1 - u) ^ qs.length) * ((qs.map fun q => val (score s q boost)).sum) := by
+  rw [score_sum, score_sum, sumScores_eq_foldl, sumScores_eq_foldl]
+  have := foldl_add_perm_bound h (hp.map (score s · boost))
+    (by
+      intro x hx
+      obtain ⟨q, hq, rfl⟩ := List.mem_map.mp hx
+      exact hpos q hq)
+  simpa [List.map_map, Function.comp_def] using this
+
+/-- THE MULTIPLICATION ORDER OF A BOOST. `BoostWeight::explain` multiplies the unboosted value by
+the boost, `(w · f) · b`, the scorer multiplies the weight first, `(w · b) · f` (the full statement
+`explain = score` is false in `f32`). With every multiplication exact up to `u` the two differ by
+at most `4·u·(w·f·b)`: for a boosted term whose boost is not `1.0`, -/
+theorem C12_explain_boost_rounding_bound {F : Type} [Arith F] (val : F → ℚ) (u : ℚ) (h : RoundLaws val u)
+    (hone : Arith.isOne (one : F) = true) (s : Stats) (n id tf : Nat) (b : F) (hb : Arith.isOne b = false)
+    (hw : 0 ≤ val (Arith.mul (idf (F := F) n s.numDocs) (Arith.add one K1)))
+    (hf : 0 ≤ val (tfFactor (F := F) s id tf)) (hb0 : 0 ≤ val b)
+    (hmul1 : ∀ x : F, Arith.mul one x = x) :
+    |val (explainValue s (.boost (.term n id tf) b)) - val (score s (.boost (.term n id tf) b) one)|
+      ≤ 4 * u * (val (Arith.mul (idf (F := F) n s.numDocs) (Arith.add one K1)) * val (tfFactor (F := F) s id tf) * val b) := by
+  simp only [explainValue, score, termScore, weight, hone, if_true, hmul1, hb, Bool.false_eq_true, if_false]
+  exact mul_order_bound h _ _ _ hw hf hb0
+
+/-- exact integer arithmetic satisfies the rounding laws for every `u ∈ [0, 1]` (no error at all):
+the bounds are not vacuous; `f32` is the intended instance of the hypothesis, with `u = 2⁻²⁴` -/
+theorem intArith_round (u : ℚ) (h0 : 0 ≤ u) (h1 : u ≤ 1) : RoundLaws (fun x : Int => (x : ℚ)) u where
+  u_nonneg := h0
+  u_le_one := h1
+  zero := by simp [zero, Arith.ofNat]
+  add_err x y := by
+    show |((x + y : Int) : ℚ) - ((x : ℚ) + (y : ℚ))| ≤ u * |(x : ℚ) + (y : ℚ)|
+    rw [Int.cast_add, sub_self, abs_zero]
+    exact mul_nonneg h0 (abs_nonneg _)
+  mul_err x y := by
+    show |((x * y : Int) : ℚ) - ((x : ℚ) * (y : ℚ))| ≤ u * |(x : ℚ) * (y : ℚ)|
+    rw [Int.cast_mul, sub_self, abs_zero]
+    exact mul_nonneg h0 (abs_nonneg _)
+
+example : |((score (F := Int) ⟨10, 50⟩ (.sum [.const (.term 1 1 1) 3, .const (.term 1 1 1) 7]) 1 : Int) : ℚ)
+      - ((score (F := Int) ⟨10, 50⟩ (.sum [.const (.term 1 1 1) 7, .const (.term 1 1 1) 3]) 1 : Int) : ℚ)|
+    ≤ ((1 + 1 / 100 : ℚ) ^ 2 - (1 - 1 / 100) ^ 2) * (3 + 7) := by
+  have := C12_sum_order_rounding_bound (fun x : Int => (x : ℚ)) (1 / 100) (intArith_round _ (by norm_num) (by norm_num))
+    ⟨10, 50⟩ [.const (.term 1 1 1) 3, .const (.term 1 1 1) 7] [.const (.term 1 1 1) 7, .const (.term 1 1 1) 3]
+    (Perm.swap _ _ _) 1 (by
+      intro q hq
+      simp only [mem_cons, not_mem_nil, or_false] at hq
+      rcases hq with rfl | rfl <;> norm_num [score, Arith.mul])
+  simpa [score, Arith.mul] using this
+
+/-- THE DIS-MAX VALUE UNDER ROUNDING: the maximum is exact, the sum carries the error of `n`
+additions, then one subtraction, one multiplication by the tie breaker and one addition. With
+`E = (1+u)ⁿ − 1`, `a = u(1+E) + E`, `b = u(1+a) + a`, `c = u(1+b) + b` (`c ≈ (n + 3)·u`), a tie
+breaker in `[0, 1]` and non-negative clause scores, the computed score is within `c · Σ` of
+`max + (Σ − max) · tie` of the clause scores. -/
+theorem C12_dismax_rounding_bound {F : Type} [Arith F] (val : F → ℚ) (u : ℚ) (h : RoundLawsMax val u) (s : Stats)
+    (qs : List (QTree F)) (tie boost : F) (hpos : ∀ q, q ∈ qs → 0 ≤ val (score s q boost))
+    (ht0 : 0 ≤ val tie) (ht1 : val tie ≤ 1) :
+    |val (score s (.dismax qs tie) boost)
+        - (((qs.map (score s · boost)).map val).foldl (fun a x => Max.max x a) 0
+            + (((qs.map (score s · boost)).map val).sum
+                - ((qs.map (score s · boost)).map val).foldl (fun a x => Max.max x a) 0) * val tie)|
+      ≤ (u * (1 + (u * (1 + (u * (1 + ((1 + u) ^ qs.length - 1)) + ((1 + u) ^ qs.length - 1)))
+            + (u * (1 + ((1 + u) ^ qs.length - 1)) + ((1 + u) ^ qs.length - 1))))
+          + (u * (1 + (u * (1 + ((1 + u) ^ qs.length - 1)) + ((1 + u) ^ qs.length - 1)))
+            + (u * (1 + ((1 + u) ^ qs.length - 1)) + ((1 + u) ^ qs.length - 1))))
+        * ((qs.map (score s · boost)).map val).sum := by
+  rw [score_dismax, sumScores_eq_foldl, maxScores_eq_foldl]
+  have := dismax_round_bound h (qs.map (score s · boost)) tie
+    (by
+      intro x hx
+      obtain ⟨q, hq, rfl⟩ := List.mem_map.mp hx
+      exact hpos q hq) ht0 ht1
+  simpa using this
+
+theorem intArith_roundMax (u : ℚ) (h0 : 0 ≤ u) (h1 : u ≤ 1) : RoundLawsMax (fun x : Int => (x : ℚ)) u where
+  toRoundLaws := intArith_round u h0 h1
+  sub_err x y := by
+    show |((x - y : Int) : ℚ) - ((x : ℚ) - (y : ℚ))| ≤ u * |(x : ℚ) - (y : ℚ)|
+    rw [Int.cast_sub, sub_self, abs_zero]
+    exact mul_nonneg h0 (abs_nonneg _)
+  max_exact x y := by
+    show ((Max.max x y : Int) : ℚ) = Max.max (x : ℚ) (y : ℚ)
+    exact Int.cast_max
+
+example : RoundLawsMax (fun x : Int => (x : ℚ)) (1 / 1000) := intArith_roundMax _ (by norm_num) (by norm_num)
 
 end TantivyModel.C12
